@@ -73,8 +73,16 @@ fn run_case(c: &Case) -> CaseOut {
     match c.format {
         "corpus" => {
             let mut file = Vec::new();
+            // records and directives interleaved in one file
+            let mut dirs = gff::directive_corpus().into_iter();
             for d in gff::corpus() {
                 gff::check_record(&d, &mut rng, &mut mon, &mut file);
+                if let Some((kind, dir)) = dirs.next() {
+                    gff::check_directive(dir, kind, &mut rng, &mut mon, &mut file);
+                }
+            }
+            for (kind, dir) in dirs {
+                gff::check_directive(dir, kind, &mut rng, &mut mon, &mut file);
             }
             gff::run_file(&mut rng, &mut mon, &file);
             let mut file = Vec::new();
